@@ -876,40 +876,92 @@ def r07_6(ctx):
 
 
 # =============================================================================== C08
-@rule("R08.1", ["C08", "C02"], "T-ESC", floor=2)
+SAFE_CALLS = {"len", "bool", "bytes", "bytearray", "isinstance", "int", "str", "repr", "hex", "memoryview", "min", "max", "type", "id",
+              "time.monotonic", "time.time", "time.perf_counter", "binascii.hexlify", "data.hex", "asyncio.get_running_loop"}
+
+
+@rule("R08.1", ["C08", "C02"], "T-ESC", floor=20)
 def r08_1(ctx):
-    """Nothing escapes EZSP.frame_received: every call and subscript in it (logging aside) lies in a try whose
-    handler catches Exception and contains no raise; the handler body itself only logs."""
+    """Nothing escapes EZSP.frame_received: the entry point is evaluated for frames of length 0..8 and 64, with no
+    protocol handler installed and with a handler that returns or raises each of the exception classes the decoding path
+    can produce (KeyError, ValueError, IndexError, AssertionError, AttributeError, TypeError, a plain Exception): every
+    path must return normally, and a non-empty frame is handed to the installed handler exactly once, unchanged. Calls the evaluation cannot see into (neither logging, nor a total builtin, nor a function of
+    the repository that is evaluated with the rest) must lie inside a try whose handler catches Exception; the handler body
+    itself may only log. Gateway.data_received only forwards."""
     from ..esc import enclosing_try, handler_contains_all
 
     repo = ctx.repo
     f = repo.func("bellows.ezsp:EZSP.frame_received")
     ctx.fn(f)
-    risky = []
-    for n in ast.walk(f.node):
-        if isinstance(n, ast.Call) and not text(n.func).startswith(("LOGGER.", "_LOGGER.")):
-            risky.append(n)
-        elif isinstance(n, ast.Subscript):
-            risky.append(n)
-        elif isinstance(n, (ast.Raise, ast.Assert)):
-            risky.append(n)
-    proto_calls = [n for n in risky if isinstance(n, ast.Call) and text(n.func) == "self._protocol"]
+    cls = repo.cls("bellows.ezsp", "EZSP")
+    proto_calls = [n for n in ast.walk(f.node) if isinstance(n, ast.Call) and text(n.func) == "self._protocol"]
     ctx.anchor(proto_calls, "EZSP.frame_received hands the frame to self._protocol(...)")
-    for n in risky:
+    excs = ("Exception", "KeyError", "ValueError", "IndexError", "AssertionError", "AttributeError", "TypeError")
+    outs = Outcomes(OK(None), *[RAISE(x) for x in excs])
+    base = same_class(stop=())
+
+    def pol(g, awaited):
+        # methods of EZSP and plain (synchronous) helpers of the handler classes are evaluated with the rest
+        if g.cls is not None and not g.is_async and g.name != "__call__" and any(n == "ProtocolHandler" for n in g.cls.base_names() + [g.cls.name]):
+            return True
+        return base(g, awaited)
+
+    px = PX(repo, models=[("self._protocol", outs)], inline=pol)
+    base.root = f
+    frames = [bytes(range(1, n + 1)) for n in (0, 1, 2, 3, 4, 5, 6, 8, 64)]
+    for proto in ["none"] + list(VERSIONS):
+        hcls = None if proto == "none" else vcls(ctx, proto)
+        for data in frames:
+            def setup():
+                h = None if hcls is None else self_obj(hcls, {"COMMANDS_BY_ID": {}}, tag="handler")
+                return self_obj(cls, {"_protocol": h}), {"data": data}
+
+            paths = px.explore(f, setup)
+            ctx.paths += len(paths)
+            for p in paths:
+                calls = [e for e in p.events if e.kind == "call" and e.what == "self._protocol"]
+                how = "/".join(str(e.extra)[:24] for e in calls) or "-"
+                pv = proto if proto == "none" else f"v{proto}"
+                ctx.require(p.terminal == "return", f"frame_received:raises:{pv}:len={len(data)}:{how}",
+                            f"frame of {len(data)} bytes, protocol handler {pv} ({how}): the receive entry point ends with {p.terminal} {p.value!r}; "
+                            "whatever arrives, EZSP.frame_received must return", func=f, trace=p.trace())
+                if proto != "none" and len(data) > 0:
+                    ctx.require(len(calls) == 1 and calls[0].args and calls[0].args[0] == data, f"frame_received:dispatch:len={len(data)}",
+                                f"a {len(data)}-byte frame is handed to the protocol handler {len(calls)} times / with other bytes", func=f, trace=p.trace())
+
+    def opaque_calls(root):
+        for n in ast.walk(root):
+            if isinstance(n, ast.Call):
+                tx = text(n.func)
+                if tx.startswith(("LOGGER.", "_LOGGER.")) or tx in SAFE_CALLS or tx == "self._protocol":
+                    continue
+                if tx.startswith("self.") and tx.count(".") == 1:
+                    try:
+                        cls.method(tx[5:])
+                        continue  # a method of EZSP: evaluated with the rest above
+                    except KeyError:
+                        pass
+                if tx.startswith("self._protocol.") and tx.count(".") == 2:
+                    try:
+                        if not vcls(ctx, VERSIONS[-1]).method(tx.split(".")[2]).is_async:
+                            continue  # a plain method of the handler classes: evaluated with the rest above, per version
+                    except KeyError:
+                        pass
+                yield n
+
+    for n in opaque_calls(f.node):
         ctx.call_sites += 1
         encl = enclosing_try(f.node, n)
+        in_handler = any(part != "body" for t, part in encl)
         ok = any(part == "body" and handler_contains_all(t) for t, part in encl)
-        ctx.require(ok, f"frame_received:unguarded:{text(n)[:40]}", f"`{text(n)[:60]}` (line {n.lineno}) can raise outside a catch-all handler: a "
-                    "malformed frame would raise out of the receive entry point", func=f, node=n)
-    for n in ast.walk(f.node):
-        if isinstance(n, ast.Try):
-            for h in n.handlers:
-                for q in ast.walk(h):
-                    if isinstance(q, ast.Call) and not text(q.func).startswith(("LOGGER.", "_LOGGER.")):
-                        ctx.violation("frame_received:handler-call", f"the catch-all handler calls {text(q.func)} which may raise", func=f, node=q)
+        if in_handler:
+            raise AnalysisError(f"the catch-all handler of EZSP.frame_received calls {text(n.func)}: whether it can raise is outside the modelled subset")
+        if not ok:
+            raise AnalysisError(f"EZSP.frame_received calls {text(n.func)} (line {n.lineno}) outside a catch-all handler: whether it can raise is outside "
+                                "the modelled subset")
     # Gateway.data_received only forwards
     g = repo.func("bellows.uart:Gateway.data_received")
-    calls = [n for n in ast.walk(g.node) if isinstance(n, ast.Call)]
+    calls = [n for n in ast.walk(g.node) if isinstance(n, ast.Call) and not text(n.func).startswith(("LOGGER.", "_LOGGER."))]
     ctx.require(len(calls) == 1 and text(calls[0].func) == "self._application.frame_received", "gateway-forward",
                 f"Gateway.data_received does {[text(c.func) for c in calls]} instead of only forwarding to frame_received", func=g)
 
